@@ -309,6 +309,13 @@ function buildError(ctx: { path: string[] }, message: string, received: unknown)
     },
   ];
 }
+// `acc.push(...xs)` hands every element over as a call argument: an error list with more than
+// ~10^5 entries (one per invalid item of a large input) overflows the stack with a RangeError
+function pushAll<T>(acc: T[], xs: readonly T[]): void {
+  for (const x of xs) {
+    acc.push(x);
+  }
+}
 function pushPath(ctx: { path: string[] }, key: string) {
   ctx.path.push(key);
 }
@@ -1312,7 +1319,7 @@ export class TupleRuntype extends BaseRuntype {
       if (!ok) {
         pushPath(ctx, `[${idx}]`);
         const errors = prefixItem.reportDecodeError(ctx, input[idx]);
-        acc.push(...errors);
+        pushAll(acc, errors);
         popPath(ctx);
       }
       idx++;
@@ -1324,7 +1331,7 @@ export class TupleRuntype extends BaseRuntype {
         if (!ok) {
           pushPath(ctx, `[${i}]`);
           const errors = this.rest.reportDecodeError(ctx, input[i]);
-          acc.push(...errors);
+          pushAll(acc, errors);
           popPath(ctx);
         }
       }
@@ -1412,7 +1419,7 @@ export class AllOfRuntype extends BaseRuntype {
     const acc = [];
     for (const v of this.schemas) {
       const errors = v.reportDecodeError(ctx, input);
-      acc.push(...errors);
+      pushAll(acc, errors);
     }
     return acc;
   }
@@ -1614,7 +1621,7 @@ export class ArrayRuntype extends BaseRuntype {
         pushPath(ctx, `[${i}]`);
         const v = input[i];
         const arr2 = this.itemParser.reportDecodeError(ctx, v);
-        acc.push(...arr2);
+        pushAll(acc, arr2);
         popPath(ctx);
       }
     }
@@ -2244,7 +2251,7 @@ export class ObjectRuntype extends BaseRuntype {
       if (!ok) {
         pushPath(ctx, k);
         const arr2 = this.properties[k].reportDecodeError(ctx, input[k]);
-        acc.push(...arr2);
+        pushAll(acc, arr2);
         popPath(ctx);
       }
     }
@@ -2261,11 +2268,11 @@ export class ObjectRuntype extends BaseRuntype {
             pushPath(ctx, k);
             if (!keyOk) {
               const keyReported = p.key.reportDecodeError(ctx, k);
-              acc.push(...keyReported);
+              pushAll(acc, keyReported);
             }
             if (!valueOk) {
               const valueReported = p.value.reportDecodeError(ctx, input[k]);
-              acc.push(...valueReported);
+              pushAll(acc, valueReported);
             }
             popPath(ctx);
           }
